@@ -41,8 +41,8 @@ types:
         size: len_payload
     instances:
       len_payload:
-        value: uncompressed_payload_len.value ^ compressed_payload_len.value
-        doc: The size is either the compressed or uncompressed length.
+        value: 'record_nil == 1 ? 0 : (_root.file_header.compression_type == compression::none ? uncompressed_payload_len.value : compressed_payload_len.value)'
+        doc: A nil record stores no payload. Otherwise the stored size is the compressed length in compressed files and the uncompressed length in uncompressed files.
 enums:
   compression:
     0: none
